@@ -10,8 +10,10 @@ From Coq.Strings Require Import Byte.
 Export ListNotations.
 Local Open Scope N_scope.
 
-Definition byte := N.
-Definition bytes := list N.
+(* notations, not definitions: [bytes] and [list N] are the same term, so rewriting
+   never trips over an implicit argument that says [byte] where another says [N] *)
+Notation byte := N (only parsing).
+Notation bytes := (list N) (only parsing).
 
 Definition bs (s : string) : bytes := map Byte.to_N (list_byte_of_string s).
 
